@@ -61,6 +61,10 @@ def is_decoder(fn):
 
 def run(ctx):
     P = ctx.P
+    ctx.clause("C08.10 an indexed read from a table whose size was validated as count * K stays inside it: read width <= stride <= K (the dictionary decoders)")
+    from ..rules import scaledext
+    nse = scaledext.check(ctx, [f for f in P.lib_functions() if P.rel(f.file).startswith("src/")])
+    ctx.floor("C08 indexed table reads under a count * width guard", nse, 4)
     ctx.clause("C08.1 cursor bounds proven on every path in the hand-written decoders (zone-style dataflow)")
     ctx.clause("C08.2 count-driven decoders stay inside checked extents (skeleton execution)")
     ctx.clause("C08.3 indices into fixed-size decoder state are bounded; guard constants fit array lengths")
